@@ -5,6 +5,7 @@ import (
 	"encoding/json"
 	"fmt"
 	"math"
+	"runtime/debug"
 	"strings"
 
 	"github.com/evanoberholster/imagemeta/imagehash"
@@ -24,7 +25,7 @@ const c16Parts = 16
 func (e *C16) ID() string    { return "C16" }
 func (e *C16) Level() string { return "exploration" }
 func (e *C16) Rule() string {
-	return "jobs, each split in 16 parts: (1) MessagePack on every generated type (MarshalMsg/UnmarshalMsg, EncodeMsg/DecodeMsg, Msgsize >= encoded length, no left-over bytes, and both decoders again into a target that holds the previous value): all 2^8 / 2^16 values of the 8/16-bit types (ImageType, FlashMode, MeteringMode, ExposureMode, ExposureProgram, Flash, Orientation, Compression, ExposureBias, the eight Canon int16 enums), grids plus random bit patterns for the float32 types, Dimensions, Ahash, PHash64, PHash256, FocusDistance; (2) text and encoding/json (value alone and inside a struct) for ImageType, MeteringMode (text and JSON number), ExposureMode, ExposureProgram, ExposureBias (all 65536 encodings), Aperture, FocalLength, ExposureTime, UUID (canonical, hash-like, braced, URN forms x case), hash Encode/Decode with exact-size buffers, UUID binary; every JSON decode is repeated into a target that already holds the previous valid value, and the encoding of the zero value is decoded into a target that holds v (a reused struct must not show what it held); (3) totality: every decoder with an error result (text, JSON, binary, msgp) fed empty, one-byte, truncated-valid, mutated-valid and random input plus the strings m, /, 1/0, +, -/, mm and numbers at the width boundaries of the integer types (255/256, 65535/65536/131072, 2^31, 2^32, 2^63, 2^64, 2^128) alone, as either half of a fraction, as decimals and with unit suffixes. Oracle: Unmarshal(Marshal(v)) == v for valid v (documented enum members, numbers representable at the textual precision, every value for binary forms); Marshal(Unmarshal(Marshal(v))) == Marshal(v) for every v whose encoding the decoder accepts; no panic. Distinct = (type, form, encoded length and leading byte for MessagePack / text length and validity class for text), a measured count of distinct encodings shapes, plus one per job part."
+	return "jobs, each split in 16 parts: (1) MessagePack on every generated type (MarshalMsg/UnmarshalMsg, EncodeMsg/DecodeMsg, Msgsize >= encoded length, no left-over bytes, and both decoders again into a target that holds the previous value): all 2^8 / 2^16 values of the 8/16-bit types (ImageType, FlashMode, MeteringMode, ExposureMode, ExposureProgram, Flash, Orientation, Compression, ExposureBias, the eight Canon int16 enums), grids plus random bit patterns for the float32 types, Dimensions, Ahash, PHash64, PHash256, FocusDistance; (2) text and encoding/json (value alone and inside a struct) for ImageType, MeteringMode (text and JSON number), ExposureMode, ExposureProgram, ExposureBias (all 65536 encodings), Aperture, FocalLength, ExposureTime, UUID (canonical, hash-like, braced, URN forms x case), hash Encode/Decode with exact-size buffers, UUID binary; every JSON decode is repeated into a target that already holds the previous valid value, and the encoding of the zero value is decoded into a target that holds v (a reused struct must not show what it held); (2b) the map-encoded type (Dimensions) is given a megabyte of nested arrays under an unknown key, each decoder in a case of its own, the worker's stack limit lowered to 16 MB; (3) totality: every decoder with an error result (text, JSON, binary, msgp) fed empty, one-byte, truncated-valid, mutated-valid and random input plus the strings m, /, 1/0, +, -/, mm and numbers at the width boundaries of the integer types (255/256, 65535/65536/131072, 2^31, 2^32, 2^63, 2^64, 2^128) alone, as either half of a fraction, as decimals and with unit suffixes. Oracle: Unmarshal(Marshal(v)) == v for valid v (documented enum members, numbers representable at the textual precision, every value for binary forms); Marshal(Unmarshal(Marshal(v))) == Marshal(v) for every v whose encoding the decoder accepts; no panic. Distinct = (type, form, encoded length and leading byte for MessagePack / text length and validity class for text), a measured count of distinct encodings shapes, plus one per job part."
 }
 func (e *C16) Assumptions() []string {
 	return []string{"valid values: documented enum members; Aperture/FocalLength multiples of 0.01 below 10000; ExposureTime 1/n for integer n and x.xx >= 1; all 65536 ExposureBias encodings",
@@ -32,6 +33,10 @@ func (e *C16) Assumptions() []string {
 }
 func (e *C16) Exhaustive(tier string) bool   { return true }
 func (e *C16) MinNontrivial(tier string) int { return 100 }
+
+// InitWorker lowers the goroutine stack limit from 1 GB to 16 MB (see C01): a decoder that
+// recurses once per nesting level of its input overflows on a megabyte instead of on 16 MB.
+func (e *C16) InitWorker(c *core.Ctx) { debug.SetMaxStack(16 << 20) }
 
 type c16job struct {
 	name string
@@ -372,6 +377,28 @@ func c16jobs() []c16job {
 		}
 	})
 	// ---------- text / JSON
+	add("msgp/deep-nesting", func(c *core.Ctx, r *core.Rng, part int) {
+		// a map with one unknown key whose value is a megabyte of nested one-element arrays: the
+		// decoders skip values of unknown keys. With the worker's stack limit at 16 MB, a skip that
+		// recurses once per level dies here; one decoder per case, a crash ends the worker.
+		if part > 1 {
+			return
+		}
+		in := append([]byte{0x81, 0xa1, 'x'}, bytes.Repeat([]byte{0x91}, 1<<20)...)
+		in = append(in, 0xc0)
+		var d meta.Dimensions
+		c.Rec.Eval(1)
+		pk, key, text := core.Guard(func() {
+			if part == 0 {
+				_, _ = d.UnmarshalMsg(in)
+			} else {
+				_ = d.DecodeMsg(msgp.NewReader(bytes.NewReader(in)))
+			}
+		})
+		if pk {
+			c16viol(c, "msgp:total:"+key, "Dimensions msgp decoder panicked on deeply nested input: "+firstLineOf(text))
+		}
+	})
 	add("text/enums", func(c *core.Ctx, r *core.Rng, part int) {
 		itC := textCodec[imagetype.ImageType]{typ: "ImageType/text", enc: func(v imagetype.ImageType) ([]byte, error) { return v.MarshalText() }, dec: func(b []byte) (imagetype.ImageType, error) {
 			var o imagetype.ImageType
